@@ -784,8 +784,11 @@ def r9(ctx):
                         if m in members:
                             sites.append((m, guards_of(n.id), f"`self.{cn}()` (moves to {m}){via}", n.id, g))
                     elif depth > 0 and cn != fn_node.name and cls.methods[cn].node is not f.node:
+                        # an un-declared helper of the class that itself moves the machine (store / delegated declared call)
                         h = cls.methods[cn]
-                        if any(isinstance(x, ast.Attribute) and x.attr == "_state" and isinstance(x.ctx, ast.Store) for x in ast.walk(h.node)):
+                        if any((isinstance(x, ast.Attribute) and x.attr == "_state" and isinstance(x.ctx, ast.Store))
+                               or (isinstance(x, ast.Call) and isinstance(x.func, ast.Attribute) and dotted(x.func.value) == "self" and x.func.attr in decl)
+                               for x in ast.walk(h.node)):
                             ctx.functions_analysed.add(h.key)
                             collect(h.node, guards_of(n.id), depth - 1, f" in {cn}()")
 
@@ -828,6 +831,128 @@ def r9(ctx):
                          if "_restore_snapshot" in comp else ""),
                       f"{len(lst)} site(s) establishing {E} under {sorted(tests)}; skipped only in {sorted(everywhere) or 'no'} prerequisite state(s)", f.loc)
     ctx.require(n_inst >= 1, "no declared method performs a state transition under a test of its own state")
+
+
+# ---------------------------------------------------------------------- C33-R10: the partial (savepoint) expire pass
+def _registers_as_altered(ctx, fld):
+    """Is every state a function records in `<tx>.<fld>[state]` also recorded in `_dirty` (handed to Session._register_altered,
+    directly or as a member of the collection the recording loop iterates, reachable after the store)?  -> (bool, [function keys])"""
+    m = ctx.index.module(SESSION)
+    pm = m.parents()
+    writers, ok = [], True
+    for f in ctx.index.all_functions(m):
+        if f.type_only or (f.cls is not None and f.cls.name == "SessionTransaction"):
+            continue
+        is_map = _tx_map_pred(f.node)
+        stores = [st for st in walk_stmts(f.node.body) if isinstance(st, ast.Assign) and any(isinstance(t, ast.Subscript) and is_map(t.value) == fld for t in st.targets)]
+        if not stores:
+            continue
+        writers.append(f.key)
+        g = ctx.cfg(f)
+        for st in stores:
+            k = next(t.slice for t in st.targets if isinstance(t, ast.Subscript) and is_map(t.value) == fld)
+            names = {unparse(k)}
+            for a in ancestors(pm, st):
+                if a is f.node:
+                    break
+                if isinstance(a, ast.For) and unparse(a.target) == unparse(k):
+                    names.add(unparse(a.iter))
+            reg = call_nodes(g, lambda c: isinstance(c.func, ast.Attribute) and c.func.attr == "_register_altered" and c.args and unparse(c.args[0]) in names)
+            # on every normal path from the store to the exit the state is registered as altered
+            if not reg or any(g.must_pass([n], [g.exit], reg, edge_ok=no_exc) is not None for n in g.nodes_for(st)):
+                ok = False
+    return ok and bool(writers), writers
+
+
+@R.rule("C33-R10", floor=3, template="T-SIBLING/T-GUARD",
+        desc="_restore_snapshot(dirty_only=True) -- the rollback of a SAVEPOINT -- expires every state the rolled-back scope recorded "
+             "that stays in the session: the branch outcomes that dominate the expire, evaluated for a clean state that is a member of only one "
+             "bookkeeping map, let it through for each of _dirty, _deleted (reverted to persistent) and _key_switches (re-keyed); a map whose "
+             "every writer also registers the state as altered (-> _dirty) is covered through _dirty; _new is expunged instead")
+def r10(ctx):
+    rst = ctx.func(f"{ST}._restore_snapshot")
+    g = ctx.cfg(rst)
+    sb = single_binds(rst.node)
+    flag = [p for p in rst.params if p != "self"]
+    ctx.require(len(flag) == 1, f"_restore_snapshot has parameters {flag}: which one requests the partial expire is not known")
+    flag = flag[0]
+    # states of the bookkeeping maps that leave the session on rollback: handed to an _expunge_states call
+    gone = set()
+    for c in calls_in(rst.node):
+        if isinstance(c.func, ast.Attribute) and c.func.attr == "_expunge_states" and c.args:
+            a0 = expand(c.args[0], sb)
+            gone |= {n.attr for n in ast.walk(a0) if isinstance(n, ast.Attribute) and n.attr in BOOKKEEPING and dotted(n.value) == "self"}
+    stay = [fld for fld in BOOKKEEPING if fld not in gone]
+    ctx.require(len(stay) >= 2 and gone, f"_restore_snapshot expunges the states of {sorted(gone)}: the maps whose states stay are not understood")
+    exp = call_nodes(g, lambda c: isinstance(c.func, ast.Attribute) and c.func.attr == "_expire" and isinstance(c.func.value, ast.Name))
+    ctx.require(exp, "_restore_snapshot expires nothing")
+    pm = rst.module.parents()
+    bb = bool_binds(rst.node)
+
+    def mentions(e, fld):
+        return any(isinstance(x, ast.Attribute) and x.attr == fld and dotted(x.value) == "self" for x in ast.walk(e))
+
+    def covered(fld):
+        """Some expire site runs for a state that is clean and a member of self.<fld> only, when the partial pass was requested."""
+        from ._helpers_rob_B2 import _eval_prop, _leaves
+        for n in exp:
+            call = next(c for c in calls_in(g.node(n).stmt) if isinstance(c.func, ast.Attribute) and c.func.attr == "_expire")
+            v = call.func.value.id
+            over = None  # what the loop the expire sits in iterates
+            for a in ancestors(pm, g.node(n).stmt):
+                if a is rst.node:
+                    break
+                if isinstance(a, ast.For) and isinstance(a.target, ast.Name) and a.target.id == v:
+                    over, loop = expand(a.iter, sb), a
+                    break
+            if over is None:
+                continue
+            heads = [x for x in g.nodes_for(loop) if g.node(x).kind == "for"]
+
+            def member_leaf(leaf):
+                try:
+                    e = ast.parse(leaf, mode="eval").body
+                except SyntaxError:
+                    return False
+                return (isinstance(e, ast.Compare) and len(e.ops) == 1 and isinstance(e.ops[0], ast.In) and unparse(e.left) == v and mentions(e.comparators[0], fld))
+
+            def runs(as_member):
+                """Is the expire reached within one pass of the loop when every test is decided for a clean state (all conditions
+                false) for which the partial pass was requested and, with as_member, `<state> in <collection made of self.<fld>>` holds?"""
+                def ok(a_, b_, lab):
+                    if lab == "exc":
+                        return False
+                    nd = g.node(a_)
+                    if nd.kind == "test" and lab in ("true", "false"):
+                        t = expand(expand(nd.stmt.test, bb), sb)
+                        leaves: List[str] = []
+                        _leaves(t, leaves)
+                        env = {leaf: (leaf == flag) or (as_member and member_leaf(leaf)) for leaf in leaves}
+                        return _eval_prop(t, env) == (lab == "true")
+                    return True
+                return n in g.reachable(heads, edge_ok=ok)
+
+            if mentions(over, fld):
+                if runs(True):
+                    return True  # `for s in self.<fld>: s._expire(..)`
+            elif runs(True) and (not runs(False) or "identity_map" in unparse(over)):
+                # the membership test lets it through (or the pass is not partial at all: every state of the identity map is expired)
+                return True
+        return False
+
+    for fld in stay:
+        key = f"{rst.key}:partial-expire-covers[{fld}]"
+        if covered(fld):
+            ctx.ok(key, f"a clean state recorded only in {fld} is expired by the partial pass")
+            continue
+        via, writers = _registers_as_altered(ctx, fld)
+        if via and fld != "_dirty" and "_dirty" in stay and covered("_dirty"):
+            ctx.ok(key, f"every writer of {fld} ({', '.join(w.rsplit('::', 1)[-1] for w in writers)}) also hands the state to _register_altered: covered through _dirty")
+            continue
+        ctx.violation(key, f"rolling back a SAVEPOINT (`{flag}`) does not expire a state that the savepoint recorded only in {fld}: it stays in the session "
+                           f"(its {'deletion is reverted' if fld == '_deleted' else 'entry is restored'}) with whatever was changed on it inside the savepoint without marking it modified "
+                           f"-- e.g. the has-parent flags cleared when it was removed from a delete-orphan collection, so that a later flush deletes its row -- "
+                           f"while the same history at the outer level expires everything", rst.loc)
 
 
 @R.rule("C33-R5", floor=3, template="T-PATH",
@@ -1047,3 +1172,54 @@ R.mutant("benign-rollback-ends-inner-in-helper", SESSION,
 R.mutant("rollback-inner-helper-only-closes", SESSION,
          chain(sub(_RB_INNER, "                self._end_inner(subtransaction)\n"),
                sub(_RB_HEAD, "    def _end_inner(self, inner: SessionTransaction) -> None:\n        inner.close()\n\n" + _RB_HEAD)), "C33-R8")
+
+# ---------------------------------------------------------------------- str2-n: C33-R9 (round-2 seed C33_4) and benign shapes of the same guard
+_RBG_BODY = "            for transaction in self._iterate_self_and_parents():\n                if transaction._parent is None or transaction.nested:\n"
+_RBG_OLD = ("        if self._state in (\n            SessionTransactionState.ACTIVE,\n            SessionTransactionState.PREPARED,\n        ):\n" + _RBG_BODY)
+_ST_ = "SessionTransactionState."
+R.mutant("seed-rollback-block-only-when-is-active", SESSION, sub(_RBG_OLD, "        if self.is_active:\n" + _RBG_BODY), "C33-R9")
+R.mutant("rollback-block-only-from-active", SESSION, sub(_RBG_OLD, f"        if self._state is {_ST_}ACTIVE:\n" + _RBG_BODY), "C33-R9")
+R.mutant("rollback-block-named-guard-only-active", SESSION,
+         sub(_RBG_OLD, f"        connections_live = self._state == {_ST_}ACTIVE\n        if connections_live:\n" + _RBG_BODY), "C33-R9")
+R.mutant("rollback-block-inverted-guard-skips-prepared", SESSION,
+         sub(_RBG_OLD, f"        if self._state in ({_ST_}DEACTIVE, {_ST_}PREPARED):\n            pass\n        else:\n" + _RBG_BODY), "C33-R9")
+_PROP_HEAD = "    @property\n    def _is_transaction_boundary(self) -> bool:\n"
+R.mutant("rollback-block-helper-property-only-active", SESSION,
+         chain(sub(_RBG_OLD, "        if self._database_transaction_open:\n" + _RBG_BODY),
+               sub(_PROP_HEAD, "    @property\n    def _database_transaction_open(self) -> bool:\n        return self._transaction_is_active()\n\n" + _PROP_HEAD)), "C33-R9")
+_CP_OLD = f"        if self._state is not {_ST_}PREPARED:\n            with self._expect_state({_ST_}PREPARED):\n                self._prepare_impl()\n"
+R.mutant("commit-prepare-skipped-from-active", SESSION, sub(_CP_OLD, _CP_OLD.replace(f"is not {_ST_}PREPARED:", f"is not {_ST_}ACTIVE:")), "C33-R9")
+_ENSURE = ("    def _ensure_prepared(self) -> None:\n        if %s:\n            return\n        with self._expect_state(" + _ST_ + "PREPARED):\n            self._prepare_impl()\n\n")
+R.mutant("commit-prepare-helper-returns-early-from-active", SESSION,
+         chain(sub(_CP_OLD, "        self._ensure_prepared()\n"), sub(_PROP_HEAD, _ENSURE % f"self._state in ({_ST_}PREPARED, {_ST_}ACTIVE)" + _PROP_HEAD)), "C33-R9")
+R.mutant("benign-rollback-block-named-guard", SESSION,
+         sub(_RBG_OLD, f"        needs_database_rollback = self._state in (\n            {_ST_}ACTIVE,\n            {_ST_}PREPARED,\n        )\n        if needs_database_rollback:\n" + _RBG_BODY), None)
+R.mutant("benign-rollback-block-unless-deactive", SESSION, sub(_RBG_OLD, f"        if self._state is not {_ST_}DEACTIVE:\n" + _RBG_BODY), None)
+R.mutant("benign-rollback-block-inverted-guard", SESSION, sub(_RBG_OLD, f"        if self._state == {_ST_}DEACTIVE:\n            pass\n        else:\n" + _RBG_BODY), None)
+R.mutant("benign-rollback-block-is-active-or-prepared", SESSION, sub(_RBG_OLD, f"        if self.is_active or self._state is {_ST_}PREPARED:\n" + _RBG_BODY), None)
+R.mutant("benign-rollback-block-helper-property", SESSION,
+         chain(sub(_RBG_OLD, "        if self._database_transaction_open:\n" + _RBG_BODY),
+               sub(_PROP_HEAD, f"    @property\n    def _database_transaction_open(self) -> bool:\n        if self._state is {_ST_}ACTIVE:\n            return True\n"
+                               f"        return self._state is {_ST_}PREPARED\n\n" + _PROP_HEAD)), None)
+R.mutant("benign-commit-prepare-when-active", SESSION, sub(_CP_OLD, _CP_OLD.replace(f"is not {_ST_}PREPARED:", f"is {_ST_}ACTIVE:")), None)
+R.mutant("benign-commit-prepare-in-helper", SESSION,
+         chain(sub(_CP_OLD, "        self._ensure_prepared()\n"), sub(_PROP_HEAD, _ENSURE % f"self._state is {_ST_}PREPARED" + _PROP_HEAD)), None)
+
+# C33-R10 (fires on the unchanged tree for `_deleted`: findings/C33_savepoint_rollback_keeps_orphan_flag.py; once fixed in /repo add the un-fix edit
+# `... or s in self._dirty or s in self._deleted` -> `... or s in self._dirty` as a breaking mutant "partial-expire-forgets-deleted")
+_PE_OLD = "            if not dirty_only or s.modified or s in self._dirty:\n                s._expire(s.dict, self.session.identity_map._modified)\n"
+_PE_EXP = "                s._expire(s.dict, self.session.identity_map._modified)\n"
+R.mutant("partial-expire-forgets-dirty", SESSION, sub(_PE_OLD, "            if not dirty_only or s.modified:\n" + _PE_EXP), "C33-R10")
+R.mutant("partial-expire-dirty-test-in-named-guard-dropped", SESSION,
+         sub(_PE_OLD, "            touched = s.modified\n            if dirty_only and not touched:\n                continue\n            s._expire(s.dict, self.session.identity_map._modified)\n"), "C33-R10")
+R.mutant("key-switch-no-longer-registered-as-altered", SESSION,
+         sub("            ((state, state.dict) for state in states), self.identity_map\n        )\n\n        self._register_altered(states)\n",
+             "            ((state, state.dict) for state in states), self.identity_map\n        )\n"), "C33-R10")
+R.mutant("benign-partial-expire-named-condition", SESSION,
+         sub(_PE_OLD, "            needs_expire = not dirty_only or s.modified or s in self._dirty\n            if needs_expire:\n" + _PE_EXP), None)
+R.mutant("benign-partial-expire-continue-form", SESSION,
+         sub(_PE_OLD, "            if dirty_only and not s.modified and s not in self._dirty:\n                continue\n            s._expire(s.dict, self.session.identity_map._modified)\n"), None)
+R.mutant("benign-partial-expire-map-alias-and-nested-ifs", SESSION,
+         sub("        for s in self.session.identity_map.all_states():\n" + _PE_OLD,
+             "        altered = self._dirty\n        for s in self.session.identity_map.all_states():\n            if dirty_only:\n                if not (s.modified or s in altered):\n                    continue\n"
+             "            s._expire(s.dict, self.session.identity_map._modified)\n"), None)
